@@ -441,6 +441,13 @@ def connect_does_not_swallow_a_stop(chk: Check, repo: Repo) -> None:
         for h in [x for x in walk_local(f.node) if isinstance(x, ast.ExceptHandler) and x.type is not None and "CancelledError" in ast.unparse(x.type)]:
             n += 1
             ok = isinstance(h.body[-1], ast.Raise)
+            # ... and the other way round: the handler may turn the cancellation of what it WAITS FOR (stop() cancels the
+            # awaited reply) into an error, but not the cancellation of the task itself - that one looks the same from
+            # inside (the awaited future is cancelled along with the task) and is told apart by `Task.cancelling()`
+            for r in [x for st in h.body for x in ast.walk(st) if isinstance(x, ast.Raise) and x.exc is not None]:
+                guards = [i_ for i_ in ast.walk(h) if isinstance(i_, ast.If) and any(y is r for b_ in i_.body for y in ast.walk(b_))]
+                told = any("cancelling()" in ast.unparse(g.test) for g in guards)
+                chk.ob("connect-does-not-swallow-a-stop", f.site(r), told, f"{qual}: `{ast.unparse(r)[:60]}` in the CancelledError handler " + ("only where the task itself is not being cancelled" if told else "also answers a cancellation of the connecting task itself: the cancellation request is lost, the caller sees an error instead"), key=f"connect-converts-task-cancel|{qual}")
             chk.ob("connect-does-not-swallow-a-stop", f.site(h), ok, f"{qual}: `except {ast.unparse(h.type)}` " + ("ends in raise" if ok else "returns normally: a stop() during this step lets connect() continue and report CONNECTED on the closed transport"), key=f"connect-swallows-cancel|{qual}")
     chk.count("cancellation handlers in the routing connect path", n)
     # ... and a disconnect() that ran while connect() was suspended in the transport's connect (plain UDP: nothing is
